@@ -17,12 +17,12 @@ suite=$(go test -vet=off -count=1 ./... 2>&1 | grep -E "^(FAIL|--- FAIL|panic:)"
 [ -z "$suite" ] && suite_ok=true || suite_ok=false
 echo "suite with change: ok=$suite_ok $suite"
 cp $demo $pkg/zz_demo_test.go
-with=$(go test -vet=off -count=1 $extra -run 'Demo|demo|TestC[0-9]' ./$pkg 2>&1 | tail -3 | tr '\n' ' ')
+with=$(go test -vet=off -count=1 $extra -run "${RUNPAT:-Demo|demo|TestC[0-9]}" ./$pkg 2>&1 | tail -3 | tr '\n' ' ')
 echo "$with" | grep -q "^ok\|	ok\|^ok " && with_fail=false || with_fail=true
 echo "$with" | grep -q "FAIL" && with_fail=true
 echo "demo WITH change: fails=$with_fail :: ${with:0:300}"
 rm $pkg/zz_demo_test.go; git checkout -q -- . ; cp $demo $pkg/zz_demo_test.go
-without=$(go test -vet=off -count=1 $extra -run 'Demo|demo|TestC[0-9]' ./$pkg 2>&1 | tail -3 | tr '\n' ' ')
+without=$(go test -vet=off -count=1 $extra -run "${RUNPAT:-Demo|demo|TestC[0-9]}" ./$pkg 2>&1 | tail -3 | tr '\n' ' ')
 echo "$without" | grep -q "FAIL" && without_pass=false || without_pass=true
 echo "demo WITHOUT change: passes=$without_pass :: ${without:0:200}"
 rm $pkg/zz_demo_test.go; git checkout -q -- . ; git clean -fdq -e _out
